@@ -19,6 +19,9 @@ UNITS = {
     "Hw": [{"k": "child", "body": [{"k": "step", "fn": {"ret": 5}, "log": "in-step"}, {"k": "wait", "s": 1}, {"k": "step", "fn": {"ret": 6}, "log": "in-step"}]}],
     "K": [{"k": "wfcb", "submit": {"ret": None}, "log": "in-submitter"}],
     "C": [{"k": "cb"}],
+    # a callback that stays pending while later operations complete; its result is awaited last
+    "Cx": [{"k": "cb", "between": [{"k": "log", "label": "x1"}, {"k": "step", "fn": {"ret": 7}, "log": "in-step"},
+                                   {"k": "log", "label": "x2"}, {"k": "wait", "s": 1}, {"k": "log", "label": "x3"}]}],
     "P": [{"k": "par", "cfg": {"cc": "all_completed"}, "branches": [[{"k": "step", "fn": {"ret": "A"}}], [{"k": "step", "fn": {"ret": "B"}}]]}],
     # early completion: a branch with a completed inner step is left STARTED under the completed parallel
     "Pe": [{"k": "par", "cfg": {"cc": "first"}, "branches": [
@@ -29,7 +32,8 @@ UNITS = {
 }
 FEATURE = {"S": "step", "W": "wait", "R": "retried-step", "F": "caught-failed-step", "H": "child-context", "Hw": "child-context",
            "K": "wait_for_callback", "C": "callback", "P": "parallel", "M": "map", "N": "wait_for_condition",
-           "Pe": "parallel-early-completion"}
+           "Pe": "parallel-early-completion", "Cx": "pending-callback-then-completed-ops"}
+UNIT_OPS = {"Cx": 3}   # durable operations a unit starts on the top-level context (default 1)
 
 
 def program(names):
@@ -38,7 +42,8 @@ def program(names):
     for i, n in enumerate(names):
         seq.extend(copy.deepcopy(UNITS[n]))
         seq.append({"k": "log", "label": f"g{i + 1}"})
-    return {"name": "+".join(names), "meta": {"units": list(names)}, "seq": seq}
+    op_unit = [n for n in names for _ in range(UNIT_OPS.get(n, 1))]
+    return {"name": "+".join(names), "meta": {"units": list(names), "op_unit": op_unit}, "seq": seq}
 
 
 def programs(tier):
@@ -47,7 +52,7 @@ def programs(tier):
     out = [program((a,)) for a in names]
     out += [program((a, b)) for a, b in itertools.product(names, repeat=2)]
     third = ["S", "W", "F", "H", "C"] if quick else names
-    first2 = ["S", "W", "R", "F", "H", "K", "P", "N", "Pe"] if quick else names
+    first2 = ["S", "W", "R", "F", "H", "K", "P", "N", "Pe", "Cx"] if quick else names
     out += [program((a, b, c)) for a in first2 for b in first2 for c in third]
     if not quick:
         four = ["S", "W", "F", "H"]
@@ -71,7 +76,8 @@ def judge(d, _=None):
         if not first and not done:
             continue  # history holds only unfinished operations: the statement leaves this case open
         u_star = max((p[0] for p in done if isinstance(p[0], int)), default=0)
-        culprit = FEATURE[units[u_star - 1]] if u_star else "none"
+        op_unit = d.program["meta"].get("op_unit") or units
+        culprit = FEATURE[op_unit[u_star - 1]] if u_star else "none"
         split = "first-page-execution-only" if inv["first_page_rows"] <= 1 and inv["history_rows"] > 1 else "other"
         counts = {}
         for c in made:
@@ -81,7 +87,9 @@ def judge(d, _=None):
             was = [l for l in em_labels.get(lab, []) if abs(l["tick"] - c["tick"]) <= 3]
             is_emitted = bool(was)
             if c["where"] == "gap":
-                j = int(lab[1:])
+                j = c.get("after_ops")   # durable operations started on the top-level context before this call
+                if j is None:
+                    continue
                 want = True if first else (j >= u_star)
             else:
                 p = c["path"]
